@@ -25,7 +25,7 @@ MANIFEST = {
     'technique': 'machine-checked proof in Coq + regenerated operator tables (vm_compute) + model/implementation correspondence by vm_compute',
 }
 
-HEADER = COQ_HEADER + 'From FpyV Require Import Num.Out Cases.C04Cases.\n'
+HEADER = COQ_HEADER + 'From FpyV Require Import Num.Out Lang.NumInst2 Cases.C04Cases.\n'
 
 
 class _Timeout(Exception):
@@ -143,6 +143,7 @@ def gen_tables(ck):
 
 KEY_MINMAX = 'minmax-zero-tie-fraction'
 KEY_SIZE = 'size-dim-rounded'
+KEY_COPYSIGN = 'copysign-nan-sign'
 
 
 def emitted_skeleton(fn):
@@ -262,6 +263,30 @@ class patched_minmax:
         self.B._unchecked_min, self.B._unchecked_max = self.old
 
 
+class patched_copysign:
+    """Run fpy2 with ONLY the MPFR engine's copysign declining a NaN sign operand (so that RealEngine's exact
+    sign transfer serves it, as it does under REAL): classifies a disagreement as finding `copysign-nan-sign`."""
+
+    def __enter__(self):
+        from fpy2.number.engine.gmp import MPFREngine
+        from fpy2.number import Float
+        self.cls, self.old = MPFREngine, MPFREngine.copysign
+        old = self.old
+
+        def copysign(eng, x, y, ctx):
+            if isinstance(y, Float) and y.isnan:
+                return None
+            return old(eng, x, y, ctx)
+        MPFREngine.copysign = copysign
+        return self
+
+    def __exit__(self, *a):
+        self.cls.copysign = self.old
+
+
+PATCHES = [(KEY_MINMAX, patched_minmax), (KEY_COPYSIGN, patched_copysign)]
+
+
 def run_program(ck, fn, runs_in, count=True):
     """runs_in: list of (args, caller CtxSpec|None).  -> (list of Coq run terms, metas)"""
     runs, metas = [], []
@@ -301,13 +326,14 @@ def load_case(ck, idx, prog, modname):
 
 def make_case(ck, idx, rng, malformed, nargs):
     """Generate program #idx, load it, run it."""
-    g = ProgGen(rng, malformed=malformed)
+    g = ProgGen(rng, malformed=malformed, families='all', rare_ops2=('fdim', 'fmod', 'remainder', 'mod'),
+                rare_ops1=('sqrt', 'nearbyint'))
     prog, sig = g.program()
     r = load_case(ck, idx, prog, f'c04_prog_{idx:05d}')
     if r[0] != 'ok':
         return r
     _, fn, same, terms, skel = r
-    callers = [small_ctx(rng) for _ in range(3)]
+    callers = [small_ctx(rng, safe=g.safe) for _ in range(3)]
     runs_in = []
     for j in range(nargs):
         args = g.args(sig, p_special=(0.0 if j == 0 else 0.25))
@@ -351,6 +377,14 @@ def directed_programs():
                 [([N.of(-0.0), N.of(0.0), N.of(1), [N.of(1), N.of(2)], [N.of(1)]], None),
                  ([N.of(0.0), N.of(-0.0), N.of(1), [N.of(1), N.of(2)], [N.of(1)]], CtxSpec('MPFloat', p=3)),
                  ([N.of(1.5), N.of(-2), N.of(1), [N.of(1), N.of(2)], [N.of(1)]], None)]))
+    # copysign with a NaN sign operand: -1 under REAL (exact sign transfer), +1 under every rounding context (MPFR path drops the sign)
+    body = [Node('assign', PVn('a'), Node('op2', 'copysign', L(1), V('x'))),
+            Node('with', None, Node('ctxval', 'fp.REAL', CtxSpec('REAL')), [Node('assign', PVn('b'), Node('op2', 'copysign', L(1), V('x')))]),
+            Node('return', Node('tuple', [V('a'), V('b'), Node('op2', 'copysign', V('y'), V('x'))]))]
+    out.append(('copysign-nan-sign', Program([Func('main', params, None, body)]), KEY_COPYSIGN,
+                [([N.nan(True), N.of(2.5), N.of(1), [N.of(1)], [N.of(1)]], None),
+                 ([N.nan(True), N.of(-3), N.of(1), [N.of(1)], [N.of(1)]], CtxSpec('MPFloat', p=3)),
+                 ([N.nan(False), N.of(-3), N.of(1), [N.of(1)], [N.of(1)]], None)]))
     # the same ties with Float zeros only: documented behaviour, no finding
     body = [Node('assign', PVn('z'), Node('op1', 'round', L(0))),
             Node('return', Node('tuple', [Node('min', [V('z'), V('x')]), Node('min', [V('x'), V('z')]),
@@ -417,7 +451,7 @@ def run(ck):
     ck.trusted += [
         'Coq 8.16.1 kernel (coqc); vm_compute evaluates the model on the correspondence cases; no native_compute',
         'hand-written Gallina model of the documented semantics (coq/Lang/Sem.v) and of the compile scheme (coq/Lang/Compile.v); tied to /repo by differential execution, not by translation',
-        'provisional number instance coq/Lang/NumInst.v (exact rational arithmetic + rf_round of Num/RealFloat.v) for REAL / MPFloat / MPSFloat / IEEE contexts; correct rounding itself is C01/C02',
+        'number instance coq/Lang/NumInst2.v = Num/Arith.v `arith` + Num/Ctx.v `ctx_round` (the proved model of C01/C02, all context families) for dyadic operands; exact rational arithmetic of NumInst.v + round-to-odd `rto_of_q` + `ctx_round` for non-dyadic (Fraction) operands',
         'harness/lang.py printers (program -> FPy source and Coq term; fpy2 AST -> Coq term; values -> Coq terms) and harness/langgen.py generator',
         'statement-skeleton printer of the emitted Python AST (c04.emitted_skeleton) vs `skeleton` of coq/Lang/Compile.v: ties the compile scheme the theorems speak about to the code BytecodeCompiler emits (expressions abstracted)',
         'CPython executing the Python AST emitted by BytecodeCompiler',
@@ -437,7 +471,7 @@ def run(ck):
     from fractions import Fraction
     globals()['F'] = Fraction
     rng = Rng(ck.seed, 'c04')
-    nprog = 2500 if thorough else 320
+    nprog = 2500 if thorough else 300
     nargs = 6 if thorough else 4
     cases, info = [], []
     rejected = 0
@@ -510,19 +544,32 @@ def run(ck):
         # classify (at most 40 programs; directed ones first): does the disagreement disappear when ONLY the
         # recorded min/max tie-break defect is corrected?
         cls = sorted(bad, key=lambda i: (info[i]['key'] is None, i))[:40]
-        retry = []
-        with patched_minmax():
-            for i in cls:
-                runs, _ = run_program(ck, info[i]['fn'], info[i]['runs_in'], count=False)
-                retry.append(f'({info[i]["prog"].coq()}, "main", {clist(runs)}, {info[i]["skel"]})')
-        still, err2 = ck.coq_eval_mismatches(HEADER, 'case4', retry, 'check4', chunk=max(1, (len(retry) + 15) // 16), timeout=1500, tag='retry')
-        if err2:
-            ck.broken.append('classification run failed: ' + err2[:400])
-        fixed_by_patch = set(cls) - {cls[j] for j in still}
+        found, remaining, err2 = {}, list(cls), None
+        for pkey, patch in PATCHES:
+            # a directed program aimed at one finding is only tried against that finding's patch
+            cand = [i for i in remaining if info[i]['key'] in (None, pkey)]
+            if not cand:
+                continue
+            retry = []
+            with patch():
+                for i in cand:
+                    runs, _ = run_program(ck, info[i]['fn'], info[i]['runs_in'], count=False)
+                    retry.append(f'({info[i]["prog"].coq()}, "main", {clist(runs)}, {info[i]["skel"]})')
+            still, e2 = ck.coq_eval_mismatches(HEADER, 'case4', retry, 'check4', chunk=max(1, (len(retry) + 15) // 16),
+                                               timeout=1500, tag='retry_' + pkey.replace('-', '_'))
+            if e2:
+                err2 = e2
+                ck.broken.append('classification run failed: ' + e2[:400])
+                break
+            stillset = {cand[j] for j in still} | {i for i in remaining if i not in cand}
+            for i in cand:
+                if i not in stillset:
+                    found[i] = pkey
+            remaining = [i for i in remaining if i in stillset]
         ndiag = 0
         for i in bad:
             it = info[i]
-            key = KEY_MINMAX if (i in fixed_by_patch and not err2) else None
+            key = found.get(i) if not err2 else None
             if it['key'] is not None and key != it['key']:
                 key = None
             out = ''
@@ -531,11 +578,11 @@ def run(ck):
                 out = ck.coq_eval_raw(HEADER, f'let c := {cases[i]} in (bad_runs4 c, models4 c, bad_skels4 c)',
                                       name='diag_' + it['tag'].replace(':', '_'), timeout=600)
             ck.violation('fpy2 and the model of the documented semantics disagree on a program'
-                         + (' (only in the +-0 tie-break of min/max with a Fraction zero)' if key else ''),
+                         + (f' (the disagreement disappears when only the recorded defect `{key}` is corrected)' if key else ''),
                          {'program_tag': it['tag'], 'program': it['prog'].source(), 'runs': it['metas'], 'emitted_skeletons': it['skel'],
                           'model_says(bad run indices, model results, functions whose emitted statement scheme differs + expected scheme)': out[-3000:],
                           'malformed_stream': it['malformed']}, key=key)
     # the recorded finding must still be observable through the directed program (otherwise the record is stale)
     for i, it in enumerate(info):
-        if it['key'] == KEY_MINMAX and i not in bad:
-            ck.log('note: the directed min/max program agrees with the model — finding ' + KEY_MINMAX + ' no longer reproduces')
+        if it['key'] is not None and i not in bad:
+            ck.log(f'note: directed program {it["tag"]} agrees with the model — finding {it["key"]} does not reproduce on this tree')
